@@ -150,7 +150,7 @@ def section_law(varying=True):
     if not varying:
         return const
     return st.one_of(
-        st.builds(lambda A0, A1: dict(law="linear", A0=A0 + 20 * abs(A1), A1=A1), logf(-1, 1), f(-0.5, 0.5)),
+        st.builds(lambda A0, A1: dict(law="linear", A0=A0 + 120 * abs(A1), A1=A1), logf(-1, 1), f(-0.5, 0.5)),      # positive for |x| <= 120 (meshes reach |x| <= 110)
         st.builds(lambda A0, amp, xm, w: dict(law="tanh", A0=A0, amp=amp, xm=xm, w=w), logf(-1, 1), f(-0.8, 0.8), f(-1, 2), logf(-1, 0.5)),
         st.builds(lambda A0, amp, xm, w: dict(law="gauss", A0=A0, amp=amp, xm=xm, w=w), logf(-1, 1), f(-2.0, 0.8), f(-1, 2), logf(-1, 0.5)),
         st.builds(lambda A0, c1, xm: dict(law="poly", A0=A0, c1=c1, xm=xm), logf(-1, 1), f(0.0, 3.0), f(-1, 2)),
